@@ -7,12 +7,13 @@ with the same call on a fresh object in a pristine forked interpreter that has
 only replayed that object's mutators (dst/oracle_fork.py).
 """
 import copy
+import json
 
 from .. import envmode
-from ..kernel import Violation, cjson
+from ..kernel import Violation, Discard, cjson
 from ..gen import gen_seq, AA, gen_special, gen_two_digit_counts, concat_collision, same_classes_other_letters
 from ..clock import SimClock
-from ..rng import RngModule, TapeRandom, UniformDriver
+from ..rng import RngModule, MTRandom, TapeRandom, UniformDriver
 from ..simfs import SimFS
 from ..oracle_fork import ForkOracle, apply_op, dec, scribble
 from ..minimise import list_candidates
@@ -352,7 +353,7 @@ def _run(plan, ctx, oracle, seqmod, sfp, spmod, SequenceParameters, fsbox):
     clock = SimClock(ctx, ctx.streams.stream("clock"), "normal")
     driver = UniformDriver(ctx.streams.stream("tape"))
     seqmod.time = clock
-    seqmod.rng = RngModule(lambda: TapeRandom("move", ctx, driver, 5000))
+    seqmod.rng = RngModule(lambda: MTRandom("move", ctx, 10 ** 7))
     fs = SimFS(ctx, prefix="dst_c15_")
     fsbox.append(fs)
     sfp.open = fs.open
@@ -377,6 +378,15 @@ def _run(plan, ctx, oracle, seqmod, sfp, spmod, SequenceParameters, fsbox):
         else:
             add(SequenceParameters(s), s, "string")
     memo = {}
+    unjudged = set()
+    scribbled = {}
+
+    def flat(v):
+        out = [v]
+        if isinstance(v, (list, tuple)):
+            for x in v:
+                out.extend(flat(x))
+        return [x for x in out if isinstance(x, (list, dict)) or type(x).__name__ == "ndarray"]
     kinds_seen = [set() for _ in objs]
     last_obj = [None]
     prev_q = [None]
@@ -428,19 +438,43 @@ def _run(plan, ctx, oracle, seqmod, sfp, spmod, SequenceParameters, fsbox):
             cs = child.get_sequence()
             add(child, cs, "child")
             kinds_seen.append(set())
+            # what a shuffled copy inherits from its parent (palette, phosphosites) is not said by the statement:
+            # the replica of the oracle starts from whichever of the two states explains what the copy shows now
+            look = [cjson(apply_op(child, "get_HTMLColorString", [], {})), cjson(apply_op(child, "get_phosphosites", [], {}))]
+            chosen = None
+            for cand in ([], [m_ for m_ in muts[i] if m_[0] == "set_HTMLColorResiduePalette"], list(muts[i])):
+                try:
+                    want_look = [cjson(oracle.ask(cs, cand, ["get_HTMLColorString", [], {}])), cjson(oracle.ask(cs, cand, ["get_phosphosites", [], {}]))]
+                except Exception:
+                    continue
+                if want_look == look:
+                    chosen = cand
+                    break
+            if chosen is None:
+                unjudged.add(len(objs) - 1)
+                ctx.probe("child_with_unexplained_setter_state")
+            else:
+                muts[-1] = list(chosen)
+                sites[-1] = [int(x) for x in json.loads(look[1])] if look[1].startswith("[") else []
             last_kind[i] = "shuffle"
             ctx.log.emit("shuffle", o=i, child=cs)
             ctx.count("shuffles")
             continue
         q = op["q"]
         name = q[0]
+        if i in unjudged:
+            continue
         if name == "get_full_phosphostatus_kappa_distribution" and len(sites[i]) > 5:
             continue
         reads0, ev0 = clock.reads, fs.nevents
         draws0 = ctx.counters.get("draws_move", 0)
         rawbox = []
         got = apply_op(o, name, q[1], q[2], raw=rawbox)
+        if rawbox and any(id(x) in scribbled for x in flat(rawbox[0])):
+            raise Discard("a container the caller had edited was handed out again (whether results are private copies is not said)")
         if op.get("scribble") and rawbox and scribble(rawbox[0]):
+            for x in flat(rawbox[0]):
+                scribbled[id(x)] = x
             ctx.probe("caller_scribbles_on_returned_container")
         if clock.reads != reads0 or fs.nevents != ev0 or ctx.counters.get("draws_move", 0) != draws0:
             ctx.probe("seam_touched_by_query")
